@@ -30,6 +30,26 @@ const (
 	nOutcomes
 )
 
+// c09Split: an item outcome is a kind, optionally combined with a message extension (kind + 16*ext, ext 1 = non-critical,
+// 2 = critical); the two legacy codes stand for a successful item with an extension.
+func c09Split(o int) (kind, ext int) {
+	switch o {
+	case oCritExt:
+		return oOK, 2
+	case oNonCritExt:
+		return oOK, 1
+	}
+	return o & 15, o >> 4
+}
+
+func c09OutcomeName(o int) string {
+	if o < nOutcomes {
+		return outcomeNames[o]
+	}
+	kind, ext := c09Split(o)
+	return outcomeNames[kind] + []string{"", "+noncritical-ext", "+critical-ext"}[ext]
+}
+
 var outcomeNames = []string{"ok", "typed-error", "plain-error", "panic", "unrouted-op", "critical-ext", "noncritical-ext", "discover-all", "discover-filtered"}
 
 var c09DefaultVersions = []kmip.ProtocolVersion{kmip.V1_4, kmip.V1_3, kmip.V1_2, kmip.V1_1, kmip.V1_0}
@@ -70,7 +90,7 @@ func (k c09case) supported() []kmip.ProtocolVersion {
 func (k c09case) String() string {
 	var it []string
 	for _, o := range k.items {
-		it = append(it, outcomeNames[o])
+		it = append(it, c09OutcomeName(o))
 	}
 	ext := ""
 	if k.verIdx > 0 || k.cfgIdx > 0 {
@@ -87,7 +107,7 @@ func runC09(c *vlib.Check) {
 	}
 	c.Rule = fmt.Sprintf("explicit-state enumeration: every batch of length 0..%d x continuation option {unset, Continue, Stop, Undo} x per-item outcome {success, typed error, plain error, panic, "+
 		"unrouted operation, critical extension, non-critical extension, built-in Discover Versions without / with a version filter} x {supported, unsupported} version x batch count {match, +1, -1} x {with, without} item IDs, each run on the real "+
-		"BatchExecutor.HandleRequest and compared field by field (and by handler call log) with a reference executor; version x configuration part: request versions {0.0, 1.0, 1.2, 1.4, 3.7, 1.5, 0.4} x executors {default, SetSupportedProtocolVersions with the full, a singleton, a gapped and a duplicated list} x batches of length <= 2 (rejected iff the version is not in the configured set); history part: every ordered pair of such requests of length <= %d through one executor (the outcome of a request must not depend on the requests the executor processed before); states = distinct (batch, configuration) cases, transitions = handler calls + response items compared", maxLen, histLen)
+		"BatchExecutor.HandleRequest and compared field by field (and by handler call log) with a reference executor; extension x kind part: every item kind x {non-critical, critical} message extension in batches of length <= 2; version x configuration part: request versions {0.0, 1.0, 1.2, 1.4, 3.7, 1.5, 0.4} x executors {default, SetSupportedProtocolVersions with the full, a singleton, a gapped and a duplicated list} x batches of length <= 2 (rejected iff the version is not in the configured set); history part: every ordered pair of such requests of length <= %d through one executor (the outcome of a request must not depend on the requests the executor processed before); states = distinct (batch, configuration) cases, transitions = handler calls + response items compared", maxLen, histLen)
 	c.Assumptions = []string{"when several rejection causes apply at once the property does not say which reason is reported: only 'single failed item, no handler executed' is required",
 		"'random longer batches' of the quantifier are not covered (sampling is another technique); the exhaustive length bound is stated in the rule"}
 	var cases []c09case
@@ -111,6 +131,30 @@ func runC09(c *vlib.Check) {
 	}
 	gen(nil)
 	vlib.Parallel(len(cases), 0, func(i int) { c09One(c, cases[i], i) })
+	// extension x kind part: every item kind combined with {no, non-critical, critical} message extension, batches of length
+	// <= 2 (a critical extension fails the item whatever its operation and keeps its handler from running)
+	var ecases []c09case
+	{
+		var alpha []int
+		for _, kind := range []int{oOK, oTyped, oPlain, oPanic, oUnrouted, oDiscoverAll, oDiscoverSub} {
+			for ext := 1; ext <= 2; ext++ {
+				alpha = append(alpha, kind+16*ext)
+			}
+		}
+		full := append([]int{oOK, oTyped, oUnrouted, oDiscoverAll}, alpha...)
+		for _, a := range alpha {
+			for _, opt := range []kmip.BatchErrorContinuationOption{0, kmip.BatchErrorContinuationOptionContinue, kmip.BatchErrorContinuationOptionStop} {
+				for _, ids := range []bool{true, false} {
+					ecases = append(ecases, c09case{items: []int{a}, option: opt, withIDs: ids})
+					for _, b := range full {
+						ecases = append(ecases, c09case{items: []int{a, b}, option: opt, withIDs: ids}, c09case{items: []int{b, a}, option: opt, withIDs: ids})
+					}
+				}
+			}
+		}
+	}
+	vlib.Parallel(len(ecases), 0, func(i int) { c09One(c, ecases[i], 1) })
+	c.Extra["extension_x_kind_cases"] = len(ecases)
 	// version x configuration part: every request version of c09Versions against every executor configuration of c09Configs
 	// (SetSupportedProtocolVersions with full / singleton / gapped / duplicated lists), batches of length <= 2
 	var vcases []c09case
@@ -150,8 +194,8 @@ func runC09(c *vlib.Check) {
 		})
 	})
 	c.Extra["history_pairs"] = pairs
-	c.States = int64(len(cases)+len(vcases)) + pairs
-	c.Traces = int64(len(cases)+len(vcases)) + 2*pairs
+	c.States = int64(len(cases)+len(vcases)+len(ecases)) + pairs
+	c.Traces = int64(len(cases)+len(vcases)+len(ecases)) + 2*pairs
 	c.Exhaustive = true
 }
 
@@ -170,7 +214,7 @@ func newC09Exec(cfgIdx ...int) *c09Exec {
 		var i, o int
 		fmt.Sscanf(req.UniqueIdentifier, "%d:%d", &i, &o)
 		x.calls = append(x.calls, i)
-		switch o {
+		switch o & 15 {
 		case oTyped:
 			return nil, kmipserver.Errorf(kmip.ResultReasonItemNotFound, "typed")
 		case oPlain:
@@ -206,20 +250,21 @@ func c09Check(c *vlib.Check, x *c09Exec, k c09case, history string) {
 	req := &kmip.RequestMessage{Header: kmip.RequestHeader{ProtocolVersion: ver, BatchErrorContinuationOption: k.option, BatchCount: int32(len(k.items) + k.countD)}}
 	for i, o := range k.items {
 		bi := kmip.RequestBatchItem{Operation: kmip.OperationActivate, RequestPayload: &payloads.ActivateRequestPayload{UniqueIdentifier: fmt.Sprintf("%d:%d", i, o)}}
-		if o == oUnrouted {
+		kind, ext := c09Split(o)
+		if kind == oUnrouted {
 			bi.Operation = kmip.OperationRevoke
 			bi.RequestPayload = &payloads.RevokeRequestPayload{UniqueIdentifier: "x"}
 		}
-		if o == oDiscoverAll || o == oDiscoverSub {
+		if kind == oDiscoverAll || kind == oDiscoverSub {
 			bi.Operation = kmip.OperationDiscoverVersions
 			pl := &payloads.DiscoverVersionsRequestPayload{}
-			if o == oDiscoverSub {
+			if kind == oDiscoverSub {
 				pl.ProtocolVersion = append([]kmip.ProtocolVersion{}, c09Filter...)
 			}
 			bi.RequestPayload = pl
 		}
-		if o == oCritExt || o == oNonCritExt {
-			bi.MessageExtension = &kmip.MessageExtension{VendorIdentification: "v", CriticalityIndicator: o == oCritExt}
+		if ext != 0 {
+			bi.MessageExtension = &kmip.MessageExtension{VendorIdentification: "v", CriticalityIndicator: ext == 2}
 		}
 		if k.withIDs {
 			bi.UniqueBatchItemID = []byte{byte(0xA0 + i)}
@@ -272,11 +317,12 @@ func c09Check(c *vlib.Check, x *c09Exec, k c09case, history string) {
 		if stopped {
 			continue
 		}
-		executed := o != oUnrouted && o != oCritExt && o != oDiscoverAll && o != oDiscoverSub
+		kind, ext := c09Split(o)
+		executed := ext != 2 && kind != oUnrouted && kind != oDiscoverAll && kind != oDiscoverSub
 		if executed {
 			wantCalls = append(wantCalls, i)
 		}
-		wantOK[i] = o == oOK || o == oNonCritExt || o == oDiscoverAll || o == oDiscoverSub
+		wantOK[i] = ext != 2 && (kind == oOK || kind == oDiscoverAll || kind == oDiscoverSub)
 		if !wantOK[i] && k.option == kmip.BatchErrorContinuationOptionStop {
 			stopped = true
 		}
@@ -300,7 +346,8 @@ func c09Check(c *vlib.Check, x *c09Exec, k c09case, history string) {
 		if gotOK != wantOK[i] {
 			fail("item-status", "item %d has status %v, reference expects success=%v", i, bi.ResultStatus, wantOK[i])
 		}
-		if gotOK && (k.items[i] == oDiscoverAll || k.items[i] == oDiscoverSub) {
+		kindI, _ := c09Split(k.items[i])
+		if gotOK && (kindI == oDiscoverAll || kindI == oDiscoverSub) {
 			var got []kmip.ProtocolVersion
 			switch pl := bi.ResponsePayload.(type) {
 			case *payloads.DiscoverVersionsResponsePayload:
@@ -312,7 +359,7 @@ func c09Check(c *vlib.Check, x *c09Exec, k c09case, history string) {
 				continue
 			}
 			want := c09DefaultVersions
-			if k.items[i] == oDiscoverSub {
+			if kindI == oDiscoverSub {
 				want = c09Filtered
 			}
 			if k.cfgIdx > 0 {
@@ -323,7 +370,7 @@ func c09Check(c *vlib.Check, x *c09Exec, k c09case, history string) {
 					for _, cv := range k.supported() {
 						in = in || cv == sv
 					}
-					if in && (k.items[i] == oDiscoverAll || sv == kmip.V1_2 || sv == kmip.V1_0) {
+					if in && (kindI == oDiscoverAll || sv == kmip.V1_2 || sv == kmip.V1_0) {
 						want = append(want, sv)
 					}
 				}
